@@ -16,7 +16,8 @@ def gen(name, nc, depth, emit, modulus, rem, workers=1, timeout=3000, dz=0, da=0
 
 
 def _exec(b):
-    return exec_pop.execute(b)
+    from . import family
+    return family.guarded(exec_pop.execute, b)
 
 
 def rand_tree(rng, nc, depth, pz=0.25, pabs=0.35, dflt=0):
@@ -88,8 +89,8 @@ def side_check(ctx, prop, clause_from, clause_to, n=None):
     n = n or (250 if ctx.quick else 4000)
     progs = [rand_program(ctx.rng, 3, ctx.rng.choice([1, 2, 3])) for _ in range(n)]
     progs += [rand_program_touch(ctx.rng, 2, ctx.rng.choice([2, 3])) for _ in range(n)]
-    behs, logs, verdicts, vstats = run_programs(ctx, prop, progs, embs=("tensor",) if prop == "C02" else ("fiber", "tensor"))
-    viol = []
+    behs, logs, verdicts, vstats, tviol = run_programs(ctx, prop, progs, embs=("tensor",) if prop == "C02" else ("fiber", "tensor"))
+    viol = list(tviol)
     events = 0
     for lg in logs:
         v = verdicts[lg["tid"]]
@@ -153,8 +154,12 @@ def run_programs(ctx, prop, progs, embs=("fiber", "tensor")):
             behs.append(b)
     with cf.ProcessPoolExecutor(max_workers=16) as ex:
         logs = list(ex.map(_exec, behs, chunksize=64))
+    from . import family
+    behs, logs, tviol = family.split_timeouts(prop, behs, logs, lambda b: "populate")
+    for v in tviol:
+        v["pop"] = True
     verdicts, vstats = tlc.validate("PopTrace.tla", "PopTrace.cfg", logs, name=prop + "_pop")
-    return behs, logs, verdicts, vstats
+    return behs, logs, verdicts, vstats, tviol
 
 
 def classify(lg):
@@ -164,8 +169,8 @@ def classify(lg):
 
 def run(ctx):
     progs, design, states = programs(ctx)
-    behs, logs, verdicts, vstats = run_programs(ctx, "C05", progs)
-    violations, devs, clauses = [], {}, {}
+    behs, logs, verdicts, vstats, tviol = run_programs(ctx, "C05", progs)
+    violations, devs, clauses = list(tviol), {}, {}
     events = 0
     distinct = set()
     for lg in logs:
@@ -201,7 +206,11 @@ def run(ctx):
 def replay(ctx, rec):
     b = dict(rec["behaviour"])
     b["tid"] = 1
-    lg = exec_pop.execute(b)
+    from . import family
+    lg = family.guarded(exec_pop.execute, b)
+    if lg.get("timeout"):
+        print("VIOLATION property=C05 replay=(replayed: the call does not terminate)")
+        return 1
     verdicts, _ = tlc.validate("PopTrace.tla", "PopTrace.cfg", [lg], name="C05_replay", shards=1)
     print(json.dumps(verdicts[1]["fails"]))
     bad = [f for f in verdicts[1]["fails"] if f[1].startswith("P:C05")]
